@@ -13,8 +13,8 @@ import os
 
 LEVEL = "fault_enumeration"
 RULE = ("cases = histories of 3-40 external events (ticks of 1..2000 s incl. as very first event, connects on telnet and ASCII ports, complete and "
-        "partial lines, telnet TTYPE/NAWS sub-negotiations, orderly and reset disconnects, reconnects) x a fault plan (error() in one or several of 13 task "
-        "kinds, once or always) x master error_handler {logging, failing, absent}. non-trivial = at least one injected fault fired and a canary was "
+        "partial lines, telnet TTYPE/NAWS sub-negotiations, orderly and reset disconnects, reconnects) x a fault plan (a fault in one or several of 13 task "
+        "kinds, once or always; the fault is error() or - kinds destruct / exec / remove - the object taking itself or its connection away inside the task) x master error_handler {logging, failing, absent}. non-trivial = at least one injected fault fired and a canary was "
         "observed afterwards; distinct = (fault sites, handler variant, event-kind sequence)")
 ASSUMPTIONS = ["console mode is not driven (its worker thread reads the harness's stdin); network mode only",
                "canaries: a second user's command sent after the history must be executed, a canary heart-beat object must be called on every later "
